@@ -107,6 +107,38 @@ class StrFlow(S.SemFlow):
                 return v
         return S.SemFlow.rvalue(self, P, txt)
 
+    def project(self, P, v, p):
+        if p[0] == "deref" and isinstance(v, tuple) and v and v[0] in ("agg", "int", "sint", "strbuf", "strlit", "vec"):
+            return v                 # container models hand out `&T` as the value itself
+        return S.SemFlow.project(self, P, v, p)
+
+    def write(self, P, local, proj, val):
+        """field writes into aggregates keep the aggregate (mirflow turns them into a functional-update term)"""
+        if proj and proj[0] != ("deref",):
+            old = self.init_value(P, local)
+
+            def upd(v, ps):
+                if not ps:
+                    return val
+                p0 = ps[0]
+                if isinstance(v, tuple) and v and v[0] == "agg":
+                    if p0[0] == "field" and p0[1] < len(v[2]):
+                        f = list(v[2])
+                        f[p0[1]] = upd(f[p0[1]], ps[1:])
+                        return ("agg", v[1], f)
+                    if p0[0] == "variant" and v[1].split("::")[-1] == p0[1]:
+                        return upd(v, ps[1:])
+                if isinstance(v, Ref) and p0 == ("deref",):
+                    self.write(P, v.local, list(v.path) + list(ps[1:]), val)
+                    return v
+                raise KeyError
+            try:
+                P.locals[local] = upd(old, list(proj))
+                return
+            except KeyError:
+                pass
+        return S.SemFlow.write(self, P, local, proj, val)
+
     def term(self, v):
         if isinstance(v, tuple) and v and v[0] in ("strlit", "strbuf", "chariter", "bytes", "byteiter", "vec", "viter", "fmtarg", "fmtargs", "nameref", "dict", "mapped"):
             k = self._opaque.setdefault(id(v), len(self._opaque))
